@@ -43,7 +43,7 @@ pub fn case() -> impl Strategy<Value = Case> {
         0u8..3,
         any::<u16>(),
         prop_oneof![2 => Just(0u8), 1 => 1u8..=255],
-        0u8..4,
+        0u8..6,
         any::<u64>(),
     )
         .prop_map(
@@ -398,6 +398,43 @@ where
             ctx.derived = Some(json!({"scheme": S::NAME, "key": info.desc, "bound": d, "degree": deg, "hiding": h, "variant": c.variant}));
             let same = |a: &Comm<S>, b: &Comm<S>| ser(a) == ser(b);
             match c.variant {
+                4 | 5 => {
+                    // a polynomial committed and opened WITHOUT a bound (degree above d where the key allows),
+                    // presented to the verifier under bound d with no degree-bound part
+                    let deg_u = if d < sup { d + 1 + pick(c.d2_choice, sup - d) } else { deg };
+                    let hu = hiding_for::<S>(&info, None, c.hiding);
+                    let pu = rand_poly::<S>(deg_u, c.seed ^ 0x66);
+                    let lpu = LabeledPolynomial::new("p".into(), pu.clone(), None, hu);
+                    let Out::Ok((cu, su)) = commit1::<S>(&keys, &lpu, c.seed) else { return Ok(()) };
+                    let Out::Ok(pru) = open1::<S>(&keys, &lpu, &cu, &su, &z, c.seed) else { return Ok(()) };
+                    let vu = pu.evaluate(&z);
+                    if !accepted(&check1::<S>(&keys, &cu, &z, vu, &pru)) {
+                        ctx.label("honest_not_accepted(C01)");
+                        return Ok(());
+                    }
+                    if S::drop_shifted(cu.commitment()).is_none() && d == info.max_degree {
+                        ctx.label("trivial_shift_skipped");
+                        return Ok(());
+                    }
+                    let c2 = LabeledCommitment::new("p".into(), cu.commitment().clone(), Some(d));
+                    ctx.label("unbounded_commitment_presented_under_bound");
+                    ctx.label_if(deg_u > d, "degree_exceeds_presented_bound");
+                    let r = check1::<S>(&keys, &c2, &z, vu, &pru);
+                    expect_reject(ctx, P, S::NAME, "check", "unbounded_presented_under_bound", &r, || {
+                        format!("degree {deg_u} committed without bound, presented under bound {d}")
+                    })?;
+                    // and through the batch entry point
+                    let mut qs = std::collections::BTreeSet::new();
+                    qs.insert(("p".to_string(), ("z".to_string(), z.clone())));
+                    let mut ev = std::collections::BTreeMap::new();
+                    ev.insert(("p".to_string(), z.clone()), vu);
+                    let bp: BatchProof<S> = vec![pru.clone()].into();
+                    let mut sp = sponge::<S::F>(0);
+                    let rb = guard(|| S::PC::batch_check(&keys.vk, [&c2], &qs, &ev, &bp, &mut sp, &mut rng(3)));
+                    expect_reject(ctx, P, S::NAME, "batch_check", "unbounded_presented_under_bound", &rb, || {
+                        format!("degree {deg_u} committed without bound, presented under bound {d}")
+                    })
+                }
                 0 => {
                     // bound dropped from the label (and the separate part, where there is one)
                     let base = S::drop_shifted(cm.commitment()).unwrap_or_else(|| cm.commitment().clone());
